@@ -8,19 +8,22 @@ arrival tick ceil(duration / tick), exact target, monotone approach, range, bind
 periodicity / pattern read — and judges the implementation's trace alone.
 Second round (seeded C18-e, C18-f): histories in which timeline.ticks_per_beat is re-assigned / the clock source replaced
 mid-run (coq/Auto/Retime.v: the resolution is carried in the state of the run; theorems C18_retime_*), and several bound
-objects that compare equal without being identical (coq/Auto/Targets.v; C18_bindings_history, C18_bindings_equal_targets)."""
+objects that compare equal without being identical (coq/Auto/Targets.v; C18_bindings_history, C18_bindings_equal_targets).
+Third round (seeded C18-h): the LFO is read through patterns (PLFO in expressions / PConcatenate / PReset / PPingPong / finite
+wrappers / track event streams) that are advanced, reset, drained, copied, constructed while it runs (coq/Auto/Readers.v threads
+the LFO through every pattern operation; C18_reader_pure_observer, C18_reader_reads_value, C18_readers_history, C18_readers_read_in_history)."""
 import math
 from common import *
 
 PROP = "C18"
-EXTRA_TARGETS = ["Auto/Corr.vo", "Auto/CorrRetime.vo"]
+EXTRA_TARGETS = ["Auto/Corr.vo", "Auto/CorrRetime.vo", "Auto/CorrReaders.vo"]
 META = {
  "engine": "S-scheduler-automation",
- "text": "Coq theorems (Props/C18.v, closed under the global context) about an executable model over exact rationals of isobar/timelines/automation.py and lfo.py: for every duration N >= 1 ticks and envelope length 0 <= E <= N the envelope weights (linspace ramps written by the two slice assignments in the code's order, divided by their mean) are >= 0 and sum to N; after move_to / move_by with any duration >= 0 and envelope fraction in [0,1] the value after max(ceil(round8(duration*tpb)),1) ticks is exactly the target, every step in between moves toward it and nothing moves afterwards; whole-tick durations give exactly that many ticks despite float error; the reported value is in [lo,hi] (clip) / [lo,hi) (wrap), congruent modulo the width and unchanged when inside; every change calls every binding exactly once with the new reported value; a sine LFO stays in [min,max], repeats after ticks_per_beat/frequency ticks when that is whole and PLFO yields exactly lfo.value (sin enters as a Section variable with -1 <= sin2pi x <= 1 and sin2pi (x+1) == sin2pi x). The model is tied to the repository on every run: generated scenarios (move_to / move_by / jump_to / bind_to, overlapping and interrupted moves, clip / wrap / no range, 0-3 bindings of both kinds, ticks_per_beat 10/24/96/480, durations 0 .. 16 beats whole and fractional, envelope fractions 0 .. 1, malformed calls) are executed on a manually ticked Timeline and compared inside coqc with the model after every operation and tick (values to 1e-9, change / call pattern and rejected calls exactly); LFOs are compared with the model evaluated on a table of math.sin values and read through PLFO from scheduled tracks. LFOs and automations are also re-configured at random ticks (attribute assignment, LFO.update, Timeline.lfo under the name of an existing LFO, LFO.reset; range / boundaries / default_duration of an automation right after a call, mid-move and after arrival): the model carries the parameters in its state (theorems C18_lfo_reconfig_range / _config / _periodic, C18_timeline_lfo_in_place, C18_reconfig_auto) and the oracle judges every tick against the configuration given last. The timeline's resolution is changed in the middle of a run as well (timeline.ticks_per_beat = n, or a new clock source; before the first tick, after one tick, mid-period / mid-move, after whole periods / after arrival; finer, coarser, multiples, divisors; once or twice): Auto/Retime.v carries the resolution in the state of a history, theorems C18_retime_lfo_range / _phase / _periodic_beats / _segment say that after any such history the value is in range, is the waveform at the BEAT position (every tick counted with the tick length in force at that tick) and repeats every 1/frequency beats across the change, C18_retime_move_to / _move_by that a move made after a change lasts ceil(duration / new tick) ticks and a move under way keeps its ticks; the oracle judges period in beats across the change, and for a move under way only what both readings of 'tick' agree on. Several targets bound to one automation that compare equal at bind time without being identical (dataclass voices / strips with equal fields, a class defining __eq__, next to plain objects, both modes; bound upfront, mid-move, after arrival, after jump_to): Auto/Targets.v, theorems C18_bindings_history (after any history every binding ever made is called, once per binding, in order) and C18_bindings_equal_targets (whatever the targets' equality keys); every target's identity is recorded by the driver and every one must receive every new value. An independent Fraction oracle judges arrival tick, target, monotonicity, range, calls, LFO range / period / pattern read on the implementation's trace alone.",
+ "text": "Coq theorems (Props/C18.v, closed under the global context) about an executable model over exact rationals of isobar/timelines/automation.py and lfo.py: for every duration N >= 1 ticks and envelope length 0 <= E <= N the envelope weights (linspace ramps written by the two slice assignments in the code's order, divided by their mean) are >= 0 and sum to N; after move_to / move_by with any duration >= 0 and envelope fraction in [0,1] the value after max(ceil(round8(duration*tpb)),1) ticks is exactly the target, every step in between moves toward it and nothing moves afterwards; whole-tick durations give exactly that many ticks despite float error; the reported value is in [lo,hi] (clip) / [lo,hi) (wrap), congruent modulo the width and unchanged when inside; every change calls every binding exactly once with the new reported value; a sine LFO stays in [min,max], repeats after ticks_per_beat/frequency ticks when that is whole and PLFO yields exactly lfo.value (sin enters as a Section variable with -1 <= sin2pi x <= 1 and sin2pi (x+1) == sin2pi x). The model is tied to the repository on every run: generated scenarios (move_to / move_by / jump_to / bind_to, overlapping and interrupted moves, clip / wrap / no range, 0-3 bindings of both kinds, ticks_per_beat 10/24/96/480, durations 0 .. 16 beats whole and fractional, envelope fractions 0 .. 1, malformed calls) are executed on a manually ticked Timeline and compared inside coqc with the model after every operation and tick (values to 1e-9, change / call pattern and rejected calls exactly); LFOs are compared with the model evaluated on a table of math.sin values and read through PLFO from scheduled tracks. LFOs and automations are also re-configured at random ticks (attribute assignment, LFO.update, Timeline.lfo under the name of an existing LFO, LFO.reset; range / boundaries / default_duration of an automation right after a call, mid-move and after arrival): the model carries the parameters in its state (theorems C18_lfo_reconfig_range / _config / _periodic, C18_timeline_lfo_in_place, C18_reconfig_auto) and the oracle judges every tick against the configuration given last. The timeline's resolution is changed in the middle of a run as well (timeline.ticks_per_beat = n, or a new clock source; before the first tick, after one tick, mid-period / mid-move, after whole periods / after arrival; finer, coarser, multiples, divisors; once or twice): Auto/Retime.v carries the resolution in the state of a history, theorems C18_retime_lfo_range / _phase / _periodic_beats / _segment say that after any such history the value is in range, is the waveform at the BEAT position (every tick counted with the tick length in force at that tick) and repeats every 1/frequency beats across the change, C18_retime_move_to / _move_by that a move made after a change lasts ceil(duration / new tick) ticks and a move under way keeps its ticks; the oracle judges period in beats across the change, and for a move under way only what both readings of 'tick' agree on. Several targets bound to one automation that compare equal at bind time without being identical (dataclass voices / strips with equal fields, a class defining __eq__, next to plain objects, both modes; bound upfront, mid-move, after arrival, after jump_to): Auto/Targets.v, theorems C18_bindings_history (after any history every binding ever made is called, once per binding, in order) and C18_bindings_equal_targets (whatever the targets' equality keys); every target's identity is recorded by the driver and every one must receive every new value. The LFO is also read through patterns while it runs: 2-4 readers of one LFO (PLFO, arithmetic expressions, finite wrappers, PConcatenate, PReset, PPingPong, nestings) and 0-2 tracks are advanced, reset, drained by all() / len(), copied, constructed mid-cycle, the tracks reset (Track.reset, timeline.schedule(track), timeline.reset) or re-scheduled by name, between ticks; Auto/Readers.v threads the LFO through every pattern operation, theorems C18_reader_pure_observer (no operation on any reader tree changes the LFO; results depend on it only through lfo.value), C18_reader_reads_value, C18_readers_history (the LFO after any interleaving is that of the tick-only history, hence in range and periodic), C18_readers_read_in_history; the oracle demands periodicity over the whole history, lfo.value unchanged by pattern operations and every reader / witness / binding / track agreeing with lfo.value. An independent Fraction oracle judges arrival tick, target, monotonicity, range, calls, LFO range / period / pattern read on the implementation's trace alone.",
  "note": "Trusted: Coq kernel + VM; the Python harness and driver; libm's sin (math.sin values enter the model as a table; the theorems assume only boundedness and periodicity of sin2pi as Section hypotheses); IEEE double arithmetic of numpy/CPython is validated against exact rationals to 1e-9, not modelled, so 'exactly the target' is exact in the model and 1e-9 on the implementation. int(envelope * ticks) and round(x, 8) are modelled on exact rationals; cases where the float product and the exact product fall on different sides of an integer / rounding tie are discarded (counted). Re-configuration after construction (lfo.min/max/frequency assigned, LFO.update, Timeline.lfo(name=existing), LFO.reset; automation.range / boundaries / default_duration re-assigned, also mid-move) is modelled, proved (in range of the CURRENT bounds after any history, period of the CURRENT frequency, moves arrive as they would have) and compared on every run; the value shown between a re-configuration and the next tick and binding calls at a range assignment are compared with the model only. Not covered: bounce_to, curve='exponential', ease, boundaries='fold' (unimplemented in isobar), LFO.pause/unpause/stop, value_changed_callbacks (never invoked by isobar).",
 }
 
-HEADER = """From Isobar Require Import Base.Prelude Auto.Automation Auto.Lfo Auto.Corr Auto.Retime Auto.CorrRetime.
+HEADER = """From Isobar Require Import Base.Prelude Auto.Automation Auto.Lfo Auto.Corr Auto.Retime Auto.CorrRetime Auto.Readers Auto.CorrReaders.
 From Coq Require Import QArith Uint63.
 Local Open Scope Q_scope.
 Definition S_ (o : option op) (e : option (int * list (Z * int))) (t : list int) := mkSeg o e t.
@@ -1174,6 +1177,399 @@ def snippet_lfo_script(sc):
             lines.append("for _ in range(%d): tl.tick(); k += 1; show('tick %%d' %% k)" % sg["ticks"])
     return "\n".join(lines)
 
+# ---- the LFO is read through patterns while it keeps running ------------------------------------------------------------
+RD_BIN = {"add": "BAdd", "sub": "BSub", "mul": "BMul"}
+
+
+def rspec_term(sp):
+    """construction expression (coq/Auto/Readers.v rspec)"""
+    k = sp[0]
+    if k == "lfo":
+        return "SLfo"
+    if k == "const":
+        return "(SConst %s)" % qlit(sp[1])
+    if k == "bin":
+        return "(SBin %s %s %s)" % (RD_BIN[sp[1]], rspec_term(sp[2]), rspec_term(sp[3]))
+    if k == "seq":
+        return "(SSeq %s %s)" % (lst([qlit(float(v)) for v in sp[1]]), blit(bool(sp[2])))
+    if k == "concat":
+        return "(SConcat %s)" % lst([rspec_term(x) for x in sp[1]])
+    if k == "reset":
+        return "(SReset %s %s)" % (rspec_term(sp[1]), rspec_term(sp[2]))
+    if k == "pingpong":
+        return "(SPingPong %s %d%%Z)" % (rspec_term(sp[1]), sp[2])
+    raise CheckError("reader spec %r" % (sp,))
+
+
+def reader_term(sp):
+    """a freshly constructed reader without PPingPong (track event streams): the object itself"""
+    k = sp[0]
+    if k == "lfo":
+        return "RdLfo"
+    if k == "const":
+        return "(RdConst %s)" % qlit(sp[1])
+    if k == "bin":
+        return "(RdBin %s %s %s)" % (RD_BIN[sp[1]], reader_term(sp[2]), reader_term(sp[3]))
+    if k == "seq":
+        return "(RdSeq %s %s 0)" % (lst([qlit(float(v)) for v in sp[1]]), blit(bool(sp[2])))
+    if k == "concat":
+        return "(RdConcat %s 0)" % lst([reader_term(x) for x in sp[1]])
+    if k == "reset":
+        return "(RdReset %s %s)" % (reader_term(sp[1]), reader_term(sp[2]))
+    raise CheckError("track reader spec %r" % (sp,))
+
+
+def eval_stateless(sp, v):
+    """the value a reader without own state yields when lfo.value is v (None: the reader has state, not judged by the
+    oracle).  PReset around a stateless pattern yields what the pattern yields: resetting it changes nothing"""
+    k = sp[0]
+    if k == "lfo":
+        return v
+    if k == "const":
+        return sp[1]
+    if k == "bin":
+        a, b = eval_stateless(sp[2], v), eval_stateless(sp[3], v)
+        if a is None or b is None:
+            return None
+        return a + b if sp[1] == "add" else a - b if sp[1] == "sub" else a * b
+    if k == "reset":
+        return eval_stateless(sp[1], v)
+    return None
+
+
+def readers_term(sc, res):
+    """Coq boolean: the model world (one LFO, readers, tracks) reproduces what every operation returned and the lfo.value
+    shown after every operation and tick.  Track events are not steps of the term: by C18_readers_history they cannot
+    matter to the LFO, and what the tracks read is judged by the oracle."""
+    tpb, F, t = sc["tpb"], Fraction(sc["freq"]), Fraction(0)
+    tab, steps = {}, []
+    for op, r in zip(sc["ops"], res["ops"]):
+        if op[0] == "tick":
+            for v in r["ticks"]:
+                t += Fraction(1, tpb)
+                x = t * F
+                tab[(x.numerator, x.denominator)] = math.sin(2 * math.pi * float(x % 1))
+                steps.append("W_ WTick XNone %s" % ilit(v[0]))
+            continue
+        if r["raise"] is not None:
+            if op[0] == "copy":
+                continue          # Pattern.copy() of a reader of a timeline's LFO raises in deepcopy: not modelled, not judged
+            return None
+        rr = r["result"]
+        if op[0] == "build":
+            w, e = "(WBuild %s)" % rspec_term(op[1]), "XNone"
+        elif op[0] == "next":
+            w, e = "(WCmd %d CNext)" % op[1], ("XStop" if rr[0] == "stop" else "(XVal %s%%uint63)" % ilit(rr[1]))
+        elif op[0] == "reset":
+            w, e = "(WCmd %d CReset)" % op[1], "XNone"
+        elif op[0] == "all":
+            w, e = "(WCmd %d (CAll (Z.to_nat 65536)))" % op[1], "(XList %s%%uint63)" % lst([ilit(x) for x in rr[1]])
+        elif op[0] == "len":
+            w, e = "(WCmd %d (CAll (Z.to_nat 65536)))" % op[1], "(XLen %d%%Z)" % rr[1]
+        elif op[0] in ("track_reset", "reschedule"):
+            w, e = "(WTrackReset %d)" % op[1], "XNone"
+        elif op[0] == "timeline_reset":
+            w, e = "WTimelineReset", "XNone"
+        else:
+            continue              # copy, reschedule_name: no pattern is advanced or reset
+        steps.append("W_ %s %s %s" % (w, e, ilit(r["lfo"])))
+    tracks = lst([lst([reader_term(["lfo"] if tr["value"] == "raw-lfo" else tr["value"])]) for tr in sc.get("tracks", [])])
+    table = lst(["se %d %d %s" % (n, d, ilit(v, 0, 10 ** 15)) for (n, d), v in tab.items()])
+    return "check_world %s 400 %d%%Z %s %s %s %s%%uint63 %s %s" % (
+        table, tpb, qlit(sc["freq"]), qlit(sc["min"]), qlit(sc["max"]), ilit(res["init"]), tracks, lst(steps))
+
+
+def oracle_lfo_readers(sc, res):
+    """Judges the implementation's trace alone.  The LFO is configured once and only ticked by the timeline, so from the
+    property text: every value after a tick lies in [min, max]; the value repeats every tpb / frequency ticks over the
+    WHOLE history, whatever was done to patterns in between; reading never changes the LFO (lfo.value is the same right
+    after a pattern operation as right before); every reader of the LFO reads that same value: next(PLFO) is lfo.value,
+    a stateless expression over it yields the expression of lfo.value, the witness PLFO and the bound attribute agree,
+    and what a track sent in tick k is its expression of the value after tick k."""
+    bad = []
+    if res["raise"] is not None:
+        return [("raises", "LFO reader scenario raised %s: %s" % (res["raise"], res.get("message")), None)]
+    lo, hi = sc["min"], sc["max"]
+    eps = 1e-12 * max(1.0, abs(lo), abs(hi))
+    tol = 1e-9 * max(1.0, abs(lo), abs(hi), abs(hi - lo))
+    flat = []
+    cur = res["init"]
+    specs = []
+    if not (lo - eps <= cur <= hi + eps):
+        bad.append(("lfo-out-of-range", "value before the first tick is %r, outside [%r, %r]" % (cur, lo, hi), 0))
+    for oi, (op, r) in enumerate(zip(sc["ops"], res["ops"])):
+        if op[0] == "tick":
+            for x, wit, bound, sent in r["ticks"]:
+                flat.append(x)
+                k = len(flat)
+                if not (lo - eps <= x <= hi + eps):
+                    bad.append(("lfo-out-of-range", "tick %d: value %r outside [%r, %r]" % (k, x, lo, hi), k))
+                if wit != x or bound != x:
+                    bad.append(("lfo-pattern", "tick %d: lfo.value %r, an untouched PLFO reads %r, bound attribute %r" % (k, x, wit, bound), k))
+                for j, v in sent:
+                    tr = sc["tracks"][j]
+                    want = x if tr["value"] == "raw-lfo" else eval_stateless(tr["value"], x)
+                    if want is not None and abs(v - want) > 1e-12 * max(1.0, abs(want)):
+                        bad.append(("track-reads-stale", "tick %d: track %d sent %r, its expression of lfo.value (%r) is %r" % (k, j, v, x, want), k))
+                cur = x
+            continue
+        k = len(flat)
+        if op[0] == "build":
+            specs.append(op[1])
+        if r["raise"] is not None and op[0] != "copy":
+            bad.append(("raises", "%r raised %s: %s" % (op, r["raise"], r.get("message")), k))
+            break
+        if r["lfo"] != cur:
+            bad.append(("lfo-disturbed", "after tick %d: %r changed lfo.value from %r to %r" % (k, op, cur, r["lfo"]), k))
+            cur = r["lfo"]
+        if r["witness"] != r["lfo"]:
+            bad.append(("lfo-pattern", "after %r: lfo.value %r, an untouched PLFO reads %r" % (op, r["lfo"], r["witness"]), k))
+        if op[0] == "next" and r["raise"] is None and r["result"][0] == "val":
+            want = eval_stateless(specs[op[1]], cur)
+            if want is not None and abs(r["result"][1] - want) > 1e-12 * max(1.0, abs(want)):
+                bad.append(("lfo-pattern", "after tick %d: next(reader %d) = %r, its expression of lfo.value (%r) is %r" % (k, op[1], r["result"][1], cur, want), k))
+    period = Fraction(sc["tpb"]) / Fraction(sc["freq"])
+    if period.denominator == 1 and period > 0:
+        p = int(period)
+        for k in range(len(flat) - p):
+            if abs(flat[k + p] - flat[k]) > tol:
+                bad.append(("lfo-not-periodic", "value after tick %d is %r, one period (%d ticks) later %r (the LFO was only ticked and read through patterns in between)" % (
+                    k + 1, flat[k], p, flat[k + p]), k + 1))
+                break
+        if p >= 4 and len(flat) >= p and hi > lo:
+            if not (min(flat[:p]) < (lo + hi) / 2 - 0.2 * (hi - lo) and max(flat[:p]) > (lo + hi) / 2 + 0.2 * (hi - lo)):
+                bad.append(("lfo-not-periodic", "one period (%d ticks) spans only [%r, %r] of range [%r, %r]" % (p, min(flat[:p]), max(flat[:p]), lo, hi), p))
+    if res.get("n_lfos") != 1:
+        bad.append(("lfo-duplicated", "the timeline holds %r LFOs after the history (one was created)" % res.get("n_lfos"), None))
+    return bad
+
+
+def rd_finite(sp):
+    """does next() reach StopIteration by itself (all() / len() terminate quickly)?"""
+    k = sp[0]
+    if k == "seq":
+        return not sp[2]
+    if k == "bin":
+        return rd_finite(sp[2]) or rd_finite(sp[3])
+    if k == "concat":
+        return all(rd_finite(x) for x in sp[1])
+    if k == "pingpong":
+        return True
+    return False
+
+
+def gen_reader_spec(rng, kind):
+    c = lambda: rng.choice([0.5, 2.0, 10.0, -1.0, 0.25, 3.0, -4.0, 64.0])
+    expr = lambda: rng.choice([["lfo"], ["bin", "mul", ["lfo"], ["const", c()]], ["bin", "add", ["bin", "mul", ["lfo"], ["const", c()]], ["const", c()]],
+                               ["bin", "sub", ["const", c()], ["lfo"]], ["bin", "mul", ["lfo"], ["lfo"]]])
+    seq = lambda: ["seq", rng.choice([[1, 2, 3], [0.5, -2], [4], [1, 0, -1, 2], [7, 8, 9, 10, 11]]), False]
+    fin = lambda: rng.choice([["bin", "add", expr(), seq()], ["bin", "mul", seq(), expr()], ["bin", "sub", expr(), seq()]])
+    trig = lambda: ["seq", rng.choice([[0, 1], [0, 0, 1], [1], [0, 0, 0, 1, 1], [0, -1, 2]]), True]
+    if kind == "lfo":
+        return ["lfo"]
+    if kind == "expr":
+        return expr()
+    if kind == "finite":
+        return fin()
+    if kind == "concat":
+        return ["concat", [fin() for _ in range(rng.choice([1, 2, 3]))]]
+    if kind == "reset":
+        return ["reset", rng.choice([expr(), ["bin", "add", expr(), ["seq", [1, 2, 3, 4], True]]]), trig()]
+    if kind == "reset-finite":
+        return ["reset", fin(), trig()]
+    if kind == "pingpong":
+        return ["pingpong", rng.choice([fin(), ["concat", [fin(), fin()]]]), rng.choice([1, 2, 3])]
+    if kind == "nested":
+        return rng.choice([["reset", ["pingpong", fin(), 2], trig()], ["concat", [["pingpong", fin(), 1], fin()]],
+                           ["pingpong", ["concat", [["pingpong", fin(), 1], fin()]], 2],
+                           ["bin", "add", ["pingpong", fin(), rng.choice([1, 2])], expr()]])
+    raise CheckError(kind)
+
+
+RD_KINDS = ["lfo", "expr", "finite", "concat", "reset", "reset-finite", "pingpong", "nested"]
+
+
+def gen_lfo_readers(run, n):
+    """histories in which the timeline ticks while patterns that read the LFO are advanced, reset, drained (all / len),
+    copied, constructed mid-cycle (PPingPong's constructor drains and resets its input), and tracks reading the LFO are
+    reset (Track.reset, timeline.schedule(<Track>), timeline.reset) or re-scheduled by name; 2-4 standalone readers and
+    0-2 tracks of ONE LFO; the operations fall mid-period (a reset at a whole number of periods would be invisible)"""
+    rng = run.rng
+    out = []
+    F3 = ["bin", "add", ["lfo"], ["seq", [1, 2, 3], False]]
+    fixed = [
+        (24, 0.5, (0.0, 1.0), [], [["build", F3], ["tick", 16], ["all", 0], ["len", 0], ["tick", 100]]),
+        (24, 0.5, (0.0, 1.0), [], [["build", ["reset", ["bin", "mul", ["lfo"], ["const", 2.0]], ["seq", [0, 0, 0, 1], True]]], ["tick", 13]] +
+         [x for _ in range(12) for x in (["next", 0], ["tick", 8])]),
+        (24, 0.5, (0.0, 1.0), [{"every": 1, "value": "raw-lfo"}], [["tick", 57], ["reschedule", 0], ["tick", 60]]),
+        (96, 0.25, (20.0, 100.0), [{"every": 3, "value": ["bin", "mul", ["lfo"], ["const", 0.5]]}, {"every": 1, "value": "raw-lfo"}],
+         [["build", ["lfo"]], ["tick", 128], ["next", 0], ["timeline_reset"], ["tick", 300], ["track_reset", 1], ["tick", 420]]),
+        (10, 1.0, (-1.0, 1.0), [], [["build", ["lfo"]], ["tick", 3], ["build", ["pingpong", F3, 2]], ["next", 1], ["tick", 4], ["reset", 1], ["all", 1], ["copy", 0], ["tick", 20]]),
+        (24, 2.0, (60.0, 72.0), [{"every": 2, "value": ["reset", ["lfo"], ["seq", [0, 1], True]]}],
+         [["build", ["concat", [F3, ["bin", "sub", ["seq", [5, 6], False], ["lfo"]]]]], ["build", ["lfo"]], ["tick", 5], ["next", 0], ["next", 0], ["reset", 0],
+          ["reset", 1], ["tick", 2], ["len", 0], ["reschedule_name", 0], ["tick", 30]]),
+    ]
+    for tpb, f, (lo, hi), tracks, ops in fixed[:n]:
+        out.append({"tpb": tpb, "freq": f, "min": lo, "max": hi, "tracks": tracks, "ops": ops, "tag": "readers-fixed"})
+    while len(out) < n:
+        tpb = rng.choice([10, 24, 24, 96])
+        f = rng.choice([x for x in LFO_WHOLE[tpb] if tpb / x >= 4]) if rng.random() < 0.85 else rng.choice([0.7, 1.1, 0.3])
+        lo, hi = rng.choice([r for r in LFO_RANGES if r[1] <= 1000])      # products of two reads stay within the literal range
+        per = max(4, int(Fraction(tpb) / Fraction(f)))
+        tracks = []
+        for _ in range(rng.choice([0, 1, 1, 2])):
+            v = rng.choice(["raw-lfo", gen_reader_spec(rng, "expr"), gen_reader_spec(rng, "reset")])
+            tracks.append({"every": rng.choice([1, 1, 2, 3]), "value": v})
+        specs, ops = [], []
+        for _ in range(rng.choice([2, 2, 3, 4])):
+            kind = rng.choice(RD_KINDS)
+            if kind in ("pingpong", "nested") and rng.random() < 0.5:
+                continue     # built later, mid-cycle
+            specs.append(gen_reader_spec(rng, kind))
+            ops.append(["build", specs[-1]])
+            run.dist("lfo.readers.kind.%s" % kind)
+        budget = min(int(2.6 * per) + 6, 330)
+        done = 0
+        while done < budget:
+            k = max(1, min(budget - done, rng.randint(1, max(2, per // 3))))
+            if (done + k) % per == 0:
+                k += 1       # never exactly at a whole number of periods
+            ops.append(["tick", k])
+            done += k
+            for _ in range(rng.choice([1, 1, 2, 3])):
+                r = rng.random()
+                if r < 0.12 or not specs:
+                    kind = rng.choice(["pingpong", "nested", "finite", "lfo"])
+                    specs.append(gen_reader_spec(rng, kind))
+                    ops.append(["build", specs[-1]])
+                    run.dist("lfo.readers.built-mid-cycle.%s" % kind)
+                    continue
+                if tracks and r < 0.32:
+                    j = rng.randrange(len(tracks))
+                    ops.append(rng.choice([["track_reset", j], ["reschedule", j], ["reschedule", j], ["timeline_reset"], ["reschedule_name", j]]))
+                    continue
+                i = rng.randrange(len(specs))
+                fin = rd_finite(specs[i])
+                what = rng.choice(["next", "next", "reset", "reset"] + (["all", "all", "len"] if fin else []) + ["copy"] * (rng.random() < 0.15))
+                if what == "next":
+                    ops += [["next", i]] * rng.choice([1, 1, 2, 4])
+                else:
+                    ops.append([what, i])
+        out.append({"tpb": tpb, "freq": f, "min": lo, "max": hi, "tracks": tracks, "ops": ops, "tag": "readers"})
+    return out
+
+
+def rd_py(sp):
+    k = sp[0]
+    if k == "lfo":
+        return "iso.PLFO(lfo)"
+    if k == "const":
+        return "iso.PConstant(%r)" % sp[1]
+    if k == "bin":
+        return "iso.P%s(%s, %s)" % (sp[1].capitalize(), rd_py(sp[2]), rd_py(sp[3]))
+    if k == "seq":
+        return "iso.PSequence(%r%s)" % (sp[1], "" if sp[2] else ", 1")
+    if k == "concat":
+        return "iso.PConcatenate([%s])" % ", ".join(rd_py(x) for x in sp[1])
+    if k == "reset":
+        return "iso.PReset(%s, %s)" % (rd_py(sp[1]), rd_py(sp[2]))
+    return "iso.PPingPong(%s, %d)" % (rd_py(sp[1]), sp[2])
+
+
+def snippet_lfo_readers(sc):
+    lines = ["import isobar as iso", "class Dev(iso.OutputDevice):", "    def control(self, control=0, value=0, channel=0): print('   track sends', control, value)",
+             "tl = iso.Timeline(output_device=Dev(), clock_source=iso.DummyClock(ticks_per_beat=%d))" % sc["tpb"],
+             "lfo = tl.lfo({'shape': 'sine', 'frequency': %r, 'min': %r, 'max': %r}); R = []; T = []; k = 0" % (sc["freq"], sc["min"], sc["max"])]
+    for j, tr in enumerate(sc.get("tracks", [])):
+        lines.append("T.append(tl.schedule({'control': %d, 'value': %s, 'channel': 1, 'duration': %d / %d}, name='reader%d'))" % (
+            20 + j, "lfo" if tr["value"] == "raw-lfo" else rd_py(tr["value"]), tr["every"], sc["tpb"], j))
+    for op in sc["ops"]:
+        if op[0] == "tick":
+            lines.append("for _ in range(%d): tl.tick(); k += 1; print('tick', k, lfo.value)" % op[1])
+        elif op[0] == "build":
+            lines.append("R.append(%s)" % rd_py(op[1]))
+        elif op[0] == "next":
+            lines.append("print('next(R[%d]) =', next(R[%d], 'StopIteration'), ' lfo.value', lfo.value)" % (op[1], op[1]))
+        elif op[0] == "reset":
+            lines.append("R[%d].reset(); print('R[%d].reset()  lfo.value', lfo.value, 'lfo.current_time', lfo.current_time)" % (op[1], op[1]))
+        elif op[0] == "all":
+            lines.append("print('R[%d].all() =', R[%d].all())" % (op[1], op[1]))
+        elif op[0] == "len":
+            lines.append("print('len(R[%d]) =', len(R[%d]))" % (op[1], op[1]))
+        elif op[0] == "copy":
+            lines.append("try: R[%d].copy()\nexcept Exception as e: print('copy raised', type(e).__name__)" % op[1])
+        elif op[0] == "track_reset":
+            lines.append("T[%d].reset()" % op[1])
+        elif op[0] == "reschedule":
+            lines.append("tl.schedule(T[%d])" % op[1])
+        elif op[0] == "reschedule_name":
+            lines.append("# tl.schedule(<the same event dict>, name='reader%d')  (updates the track in place)" % op[1])
+        elif op[0] == "timeline_reset":
+            lines.append("tl.reset()")
+    return "\n".join(lines)
+
+
+def run_lfo_readers(run, scs):
+    if not scs:
+        return
+    shards = [scs[i::8] for i in range(8) if scs[i::8]]
+    outs = run.impl_parallel("c18_impl", [{"lfo_readers": sh} for sh in shards])
+    results = {}
+    for sh, out in zip(shards, outs):
+        for sc, r in zip(sh, out["lfo_readers"]):
+            results[id(sc)] = r
+    terms, meta = [], []
+    for sc in scs:
+        res = results[id(sc)]
+        run.count(1)
+        run.dist("lfo.readers.%s" % sc.get("tag", "replay"))
+        run.dist("lfo.readers.tracks.%d" % len(sc.get("tracks", [])))
+        for op in sc["ops"]:
+            if op[0] != "tick":
+                run.dist("lfo.readers.op.%s" % op[0])
+        if res["raise"] is None:
+            for op, r in zip(sc["ops"], res["ops"]):
+                if op[0] == "copy":
+                    run.dist("lfo.readers.copy.%s" % ("raises-" + r["raise"] if r["raise"] else "ok"))
+        bad = oracle_lfo_readers(sc, res)
+        nt = sum(len(r.get("ticks", [])) for r in res.get("ops", []))
+        run.cov["oracle_evaluations"] += 4 * nt + 3 * len(res.get("ops", [])) + 1
+        kinds = set()
+        for kind, detail, tick in bad:
+            if kind in kinds:
+                continue
+            kinds.add(kind)
+            run.violation({"kind": kind, "site": "LFO"}, {
+                "case": {"scenario": sc, "what": "lfo_readers"}, "observed": detail, "tick": tick,
+                "oracle": "range / period / undisturbed / every-reader-reads-lfo.value oracle from the property text",
+                "all_failures_in_this_case": [b[1] for b in bad][:8], "python": snippet_lfo_readers(sc)})
+        if res["raise"] is not None:
+            continue
+        run.cov["ticks_compared"] = run.cov.get("ticks_compared", 0) + nt
+        term = readers_term(sc, res)
+        if term is None:
+            continue         # an operation raised: the oracle has reported it
+        terms.append(term)
+        meta.append((sc, res, bool(bad)))
+        if nt > 0:
+            run.nontrivial(json.dumps(sc, sort_keys=True))
+        run.sample({"lfo_readers": {k: sc[k] for k in ("tpb", "freq", "min", "max", "tracks")}, "ops": sc["ops"][:12]}, limit=2)
+    failing = run.coq_failing(HEADER, terms, chunk=max(2, len(terms) // 12 + 1))
+    run.cov["traces_validated_against_impl"] += len(terms) - len(failing)
+    for i in failing:
+        sc, res, judged = meta[i]
+        if judged:
+            continue
+        run.violation({"kind": "correspondence", "site": "LFO"}, {
+            "case": {"scenario": sc, "what": "lfo_readers"},
+            "observed": "implementation and model (coq/Auto/Readers.v w_step: the LFO is ticked by the timeline only, pattern operations "
+                        "observe it) disagree on this history: lfo.value after some operation or tick differs by more than 1e-9 from the "
+                        "tick-only waveform, or next / all / len of a reader returned something else than the model says",
+            "implementation": [{"op": op, "result": r.get("result"), "lfo": r.get("lfo"), "ticks": [v[0] for v in r.get("ticks", [])][:40]}
+                               for op, r in zip(sc["ops"], res["ops"])][:60],
+            "python": snippet_lfo_readers(sc)})
+
+
 # ---- snippets ----------------------------------------------------------------------------------------------
 def snippet_auto(sc, upto_tick=None):
     kw = []
@@ -1457,12 +1853,14 @@ def check(run):
         run_autos(run, cases[i:i + 1500])
     run_lfos(run, gen_lfos(run, 40 if quick else 400))
     run_lfo_scripts(run, gen_lfo_scripts(run, 48 if quick else 500) + gen_lfo_retime(run, 30 if quick else 400))
+    run_lfo_readers(run, gen_lfo_readers(run, 36 if quick else 500))
     run.cov["rule"] = ("one case = one scenario on a fresh Timeline: an automation (range none/clip/wrap, initial, default_duration, 0-3 bindings) "
                        "driven by a sequence of move_to / move_by / jump_to / bind_to calls with ticks in between, or one LFO (frequency, range) "
                        "ticked for > 2 periods and read through PLFO from two scheduled tracks; every value after every operation and tick is "
                        "compared with the Coq model; or one LFO / automation history with re-configurations (attribute assignment, update, Timeline.lfo(name=existing), "
                        "reset; range / boundaries / default_duration; timeline.ticks_per_beat / clock source) at random ticks, observed after every operation and tick; "
-                       "or one automation with 2-5 bound targets of which 2-4 compare equal without being identical. "
+                       "or one automation with 2-5 bound targets of which 2-4 compare equal without being identical; "
+                       "or one LFO with several pattern readers and tracks that are advanced / reset / drained / constructed between ticks. "
                        "distinct by the full scenario; non-trivial = at least one tick was executed.")
 
 
@@ -1480,6 +1878,8 @@ def replay(run, doc):
         run_lfos(run, [sc])
     elif case.get("what") == "lfo_script":
         run_lfo_scripts(run, [sc])
+    elif case.get("what") == "lfo_readers":
+        run_lfo_readers(run, [sc])
     else:
         run_autos(run, [(sc, info_from_json(case["oracle_info"]))])
     for v in run.violations:
